@@ -10,7 +10,7 @@ import (
 	"time"
 
 	"verif/core"
-	_ "verif/props"
+	"verif/props"
 )
 
 func main() {
@@ -54,6 +54,9 @@ func main() {
 			}
 		}
 		os.Exit(core.WorkerMain(*prop, *tier, *seed, *shard, *nshards, sk, *out, *slot))
+	case "environ-probe":
+		// child of a C20 case: reports what NewExecEnv imports from this process's environment
+		props.C20EnvironProbe()
 	case "solo":
 		fs := flag.NewFlagSet("solo", flag.ExitOnError)
 		prop := fs.String("prop", "", "")
